@@ -97,18 +97,22 @@ def evaluate(hist, res, ctx, facet, model_reply=None, only_last=False):
                     res.violations.append(dict(key='inv:%s:%s' % (opk, st.weak[0]),
                                                what='after %s the grid is inconsistent: %s (by name) / %s (by identity)' % (json.dumps(st.op)[:160], st.weak, st.strong),
                                                case=case))
+                    cause = 'reported'
                 elif cause in G.FINDING_KEYS:
                     res.violations.append(dict(key=G.FINDING_KEYS[cause],
                                                what='%s: after %s: %s' % (cause, json.dumps(st.op)[:120], st.weak), case=case))
-                else:
+                    cause = 'reported'
+                elif cause != 'reported':
                     res.count('broken-after-misuse')
             elif cause is None:
                 if st.strong:
                     res.count('identity-reading-only-failure')
                 if st.rename_msg:
                     res.violations.append(dict(key='rename-loses-block', what='rename_blocks(%s): %s' % (json.dumps(st.op[1])[:120], st.rename_msg), case=case))
+                    cause = 'reported'
                 if st.check_exc:
                     res.violations.append(dict(key='check-raises:' + st.check_exc, what='t2grid.check() raises %s after %s' % (st.check_exc, json.dumps(st.op)[:120]), case=case))
+                    cause = 'reported'
         # ---- correspondence
         if model is not None and i >= hist.dump_from:
             head, pre, inv, wd = G.split_model_dump(model[mi])
